@@ -11,12 +11,6 @@ mod c15;
 #[cfg(kani)]
 mod c16;
 #[cfg(kani)]
-mod c17;
-#[cfg(kani)]
-mod c18;
-#[cfg(kani)]
-mod c19;
-#[cfg(kani)]
 mod c20;
 #[cfg(kani)]
 mod c21;
